@@ -50,6 +50,41 @@ fn main() -> ExitCode {
         match args[i].as_str() {
             "--regen-fixtures" => return regen_fixtures(),
             "--list" => list = true,
+            "--digest" => {
+                // --digest <seed> <scale>: name, length and FNV-1a of every item (to compare two processes)
+                let seed: u64 = args[i + 1].parse().unwrap();
+                let scale: u8 = args[i + 2].parse().unwrap();
+                for it in corpus::items(seed, scale) {
+                    println!("{}\t{}\t{:016x}\t{:016x}", it.name, it.bytes.len(), vcore::rng::fnv1a(&it.bytes), vcore::rng::fnv1a(format!("{:?}", it.side).as_bytes()));
+                }
+                return ExitCode::SUCCESS;
+            }
+            "--probe-each" => {
+                // --probe-each <kind> <model file>: like --probe, one record (line not starting with # / @) at a time
+                let kind = Kind::from_name(&args[i + 1]).expect("kind");
+                let model = std::fs::read_to_string(&args[i + 2]).unwrap();
+                let header: String = model.lines().filter(|l| l.starts_with('#') || l.starts_with('@')).map(|l| format!("{l}\n")).collect();
+                for line in model.lines().filter(|l| !(l.starts_with('#') || l.starts_with('@'))) {
+                    let m = format!("{header}{line}\n");
+                    let mut item = Item { kind, name: "probe".into(), bytes: vec![], side: corpus::Side { model: Some(m.into_bytes()), writable: true, ..Default::default() } };
+                    let mut out = Vec::new();
+                    let res = std::panic::catch_unwind(std::panic::AssertUnwindSafe(|| corpus::write_history(&item, &mut out)));
+                    match res {
+                        Ok(Ok(())) => {
+                            item.bytes = out;
+                            for v in kind.variants() {
+                                let t = corpus::transcript_read_variant(kind, *v, &item.bytes[..], &item.side, true, corpus::DEFAULT_CAP);
+                                if t.iter().any(|e| e.contains('\u{15}') || e.starts_with("A-ERR") || e.starts_with("ERR")) {
+                                    println!("READ-FAIL {v:?} {:?} {:?}: {line}", t.last().unwrap(), corpus::last_error_message());
+                                }
+                            }
+                        }
+                        Ok(Err(e)) => println!("WRITE-REJECT {:?} {e}: {line}", e.kind()),
+                        Err(_) => println!("WRITE-PANIC: {line}"),
+                    }
+                }
+                return ExitCode::SUCCESS;
+            }
             "--probe" => {
                 // --probe <kind> <model file>: write the model (SAM / VCF text) through the writer of <kind>, read it back
                 let kind = Kind::from_name(&args[i + 1]).expect("kind");
@@ -111,6 +146,13 @@ fn main() -> ExitCode {
         i += 1;
     }
 
+    // behaviour of noodles that is not a corpus matter (C12 / C14 material): counted per class, one example kept
+    let observations: std::cell::RefCell<BTreeMap<String, (usize, String)>> = Default::default();
+    let observe = |class: String, example: String| {
+        let mut o = observations.borrow_mut();
+        let e = o.entry(class).or_insert((0, example));
+        e.0 += 1;
+    };
     let mut failures = 0usize;
     let mut fail = |msg: String| {
         failures += 1;
@@ -191,7 +233,12 @@ fn main() -> ExitCode {
                             for cap in [1usize, 3, 64] {
                                 let d = corpus::transcript_read_variant(it.kind, variant, &it.bytes[..], &it.side, deep, cap);
                                 if a != d {
-                                    fail(format!("{} {variant:?}: BufReader capacity {cap} changes the transcript", it.name));
+                                    // not a corpus defect: this is what C12 is about; reported, not failed
+                                    let k = a.iter().zip(&d).position(|(x, y)| x != y).unwrap_or(a.len().min(d.len()));
+                                    observe(
+                                        format!("{} {variant:?}: small BufReader capacity changes the transcript", it.name),
+                                        format!("cap {cap}, element {k}: {:?} vs {:?}", a.get(k).map(|e| &e[..e.len().min(120)]), d.get(k).map(|e| &e[..e.len().min(120)])),
+                                    );
                                 }
                             }
                         }
@@ -216,13 +263,43 @@ fn main() -> ExitCode {
                         if r(p) != r(&e) {
                             let (a, b) = (r(p), r(&e));
                             let k = a.iter().zip(&b).position(|(x, y)| x != y);
-                            println!(
-                                "INFO {}: lazy and eager R elements differ (first at {:?}): {:?} vs {:?}",
-                                it.name,
-                                k,
-                                k.map(|k| &a[k][..a[k].len().min(300)]),
-                                k.map(|k| &b[k][..b[k].len().min(300)])
+                            observe(
+                                format!("{}: Primary (lazy) and Eager R elements differ", it.kind.name()),
+                                format!("{} first at {:?}: {:?} vs {:?}", it.name, k, k.map(|k| &a[k][..a[k].len().min(300)]), k.map(|k| &b[k][..b[k].len().min(300)])),
                             );
+                        }
+                    }
+                }
+
+                // the vcore adversaries plug in (API check; differences are C12 / C14 material, only reported)
+                if it.bytes.len() <= 4096 {
+                    use vcore::adv::{ChunkedRead, Sizes};
+                    if let Some(p) = &primary {
+                        let a = corpus::transcript_read(it.kind, ChunkedRead::from_slice(&it.bytes, Sizes::Fixed(1)), &it.side, false);
+                        let b = corpus::transcript_bufread(it.kind, ChunkedRead::from_slice(&it.bytes, Sizes::Fixed(1)), &it.side, false);
+                        let c = corpus::transcript_bufread(it.kind, ChunkedRead::from_slice(&it.bytes, Sizes::Random(7, seed)).with_interrupts([0, it.bytes.len() / 2, it.bytes.len()]), &it.side, false);
+                        for (what, t) in [("Read 1 byte/call", &a), ("BufRead 1-byte windows", &b), ("BufRead random<=7 + 3 Interrupted", &c)] {
+                            if t != p {
+                                let k = t.iter().zip(p).position(|(x, y)| x != y).unwrap_or(t.len().min(p.len()));
+                                observe(
+                                    format!("{} via ChunkedRead: {what} changes the transcript", it.kind.name()),
+                                    format!("{} element {k}: slice {:?} vs adversary {:?}", it.name, p.get(k).map(|e| &e[..e.len().min(100)]), t.get(k).map(|e| &e[..e.len().min(100)])),
+                                );
+                            }
+                        }
+                    }
+                    if it.writable() {
+                        use vcore::adv::{Accept, FaultMode, FaultyWrite};
+                        let healthy = FaultyWrite::new(FaultMode::None, std::io::ErrorKind::Other, Accept::AtMost(3));
+                        let r = corpus::write_history(it, healthy.clone());
+                        if r.is_err() || (it.write_bytes_deterministic() && healthy.bytes() != it.bytes) {
+                            observe(format!("{}: short-write sink (3 bytes/call) changes the outcome", it.kind.name()), format!("{}: result {r:?}, bytes equal: {}", it.name, healthy.bytes() == it.bytes));
+                        }
+                        let broken = FaultyWrite::new(FaultMode::Sticky(0), std::io::ErrorKind::BrokenPipe, Accept::All);
+                        let r = corpus::write_history(it, broken.clone());
+                        let calls = broken.log.lock().unwrap().calls;
+                        if r.is_ok() && calls > 0 {
+                            observe(format!("{}: every sink call failed but write_history returned Ok", it.kind.name()), format!("{} ({calls} sink calls)", it.name));
                         }
                     }
                 }
@@ -323,7 +400,19 @@ fn main() -> ExitCode {
             }
         }
     }
-    // the known problems must still be problems (otherwise the list is stale) and must not be anything worse
+    // observation: try_finish() followed by a plain drop of a BGZF writer appends a second EOF block
+    {
+        use std::io::Write as _;
+        let mut v = Vec::new();
+        {
+            let mut w = noodles_bgzf::io::Writer::new(&mut v);
+            w.write_all(b"x").unwrap();
+            w.try_finish().unwrap();
+        }
+        let n = vcore::bgzf::walk(&v).map(|w| w.members.iter().filter(|m| m.is_eof_marker).count()).unwrap_or(0);
+        observe("bgzf::io::Writer: write + try_finish() + drop".into(), format!("leaves {n} EOF marker block(s) in the sink"));
+    }
+    // the known problems: do they still reproduce on this tree?
     for k in corpus::known_problems() {
         let t = corpus::transcript_read_variant(k.item.kind, k.variant, &k.item.bytes[..], &k.item.side, false, corpus::DEFAULT_CAP);
         let bad = !ends_ok(&t) || t.iter().any(|e| e.contains('\u{15}'));
@@ -332,11 +421,12 @@ fn main() -> ExitCode {
             k.item.name,
             k.variant,
             k.what,
-            if bad { format!("still fails: last={:?} msg={:?}", t.last(), corpus::last_error_message()) } else { "NO LONGER FAILS".to_string() }
+            if bad { format!("still fails: last={:?} msg={:?}", t.last(), corpus::last_error_message()) } else { "NO LONGER FAILS on this tree (fixed?)".to_string() }
         );
-        if !bad {
-            fail(format!("known problem {} no longer reproduces: update known_problems()", k.item.name));
-        }
+        // (not a failure: the coordinator may have applied the fix to /repo; known_problems() can then be pruned)
+    }
+    for (class, (n, example)) in observations.borrow().iter() {
+        println!("OBSERVED x{n} {class} -- e.g. {example}");
     }
     if failures > 0 {
         eprintln!("{failures} failure(s)");
